@@ -62,7 +62,8 @@ def gen_model_(rng):
     if rng.chance(2, 3):
         rules.append(("additive", {"equation": "S = A + B"}, rng.choice(["repeated", "dt"])))
     if rng.chance(1, 2):
-        rules.append(("assignment", {"equation": "R = 2*A + k0"}, rng.choice(["repeated", "dt", 1.5, "start", 0, 0.0, "0", 2])))
+        rules.append(("assignment", {"equation": rng.choice(["R = 2*A + k0", "R = 2*A + k0", "R = -A^2 + 50*k0", "R = log(A + 1) + k0", "R = k0*exp(-B^2/8)"])},
+                      rng.choice(["repeated", "dt", 1.5, "start", 0, 0.0, "0", 2])))
     params = {"tau": 0.4, "mu": 1.2, "th": 0.25}
     for j in range(4):
         params["k%d" % j] = rng.choice([0.5, 1.0, 2.0]); params["K%d" % j] = rng.choice([2.0, 3.0]); params["n%d" % j] = rng.choice([1.0, 2.0])
@@ -103,7 +104,27 @@ def observe(M):
             out["delays"].append((name, [float(pv[int(vals[1])]), float(pv[int(vals[2])])]))
         else:
             out["delays"].append((name, []))
-    out["rules"] = [(r[0] if r[0] != "additive" else "assignment", re.sub(r"\s+", "", r[1]["equation"]), str(r[2]).replace("repeated", "repeated")) for r in M.get_rules()]
+    # rules by what they do (the text may be spelled differently after the round trip: ln for log, other spacing): the
+    # target and the value assigned at three states, species and parameters addressed by name
+    robjs = list(M.__getstate__()[6])
+    rules = []
+    pl = M.get_param_list()
+    for r, ro in zip(M.get_rules(), robjs):
+        target = r[1]["equation"].split("=")[0].strip()
+        effects = []
+        for st in ([3.0, 2.0, 4.0, 1.0, 2.0], [6.0, 0.0, 1.0, 0.0, 0.0], [1.5, 2.5, 0.75, 1.0, 1.0]):
+            x = np.zeros(len(sl))
+            for s_, v in zip(order, st):
+                x[sl.index(s_)] = v
+            p_ = np.array(M.get_parameter_values(), dtype=float).copy()
+            try:
+                t_exec = float(r[2])            # a rule scheduled for a time is executed at that time
+            except (TypeError, ValueError):
+                t_exec = 0.0
+            ro.py_execute_rule(x, p_, t_exec, 0.25, True)
+            effects.append(round(float(x[sl.index(target)] if target in sl else p_[pl.index(target)]), 9))
+        rules.append((r[0] if r[0] != "additive" else "assignment", target + "<-" + str(effects), str(r[2])))
+    out["rules"] = rules
     return out
 
 
